@@ -832,9 +832,9 @@ def call(I, f, args, kwargs, node, fr):
             stubs = getattr(I.current_contract, "stubs", None)
             if stubs and key in stubs:
                 c = stubs[key]
-            if c is not None:
-                return apply_contract(I, c, [f.__self__] + list(args), kwargs, node)
             from .methods import concrete as _conc
+            if c is not None and not (key == "pdfminer.psparser:PSSymbolTable.intern" and _conc(args, kwargs) and not (stubs and key in stubs)):
+                return apply_contract(I, c, [f.__self__] + list(args), kwargs, node)
             if key == "pdfminer.psparser:PSSymbolTable.intern" and _conc(args, kwargs):
                 # interning a constant name in a real (process-wide) table: the real object (idempotent; scenario 'interning-is-idempotent')
                 return f(*args, **kwargs)
